@@ -102,10 +102,12 @@ class ColorMatrix:
                 for column in range(0, self.width)]
 
     def overlay_color(self, rect: Rect, color) -> None:
-        # Set the cells within rect to color.
+        # Set the cells within rect to color. The part of rect that lies
+        # outside the matrix has no cells to set.
         self._normalize_rect(rect)
-        for row in range(rect.top, rect.bottom + 1):
-            for column in range(rect.left, rect.right + 1):
+        for row in range(max(rect.top, 0), min(rect.bottom, self.height - 1) + 1):
+            for column in range(
+                    max(rect.left, 0), min(rect.right, self.width - 1) + 1):
                 self._mat[row][column] = color
 
     def overlay_section(self, rect: Rect, srce) -> None:
